@@ -39,4 +39,41 @@ def handleFlr (kv : List (String × String)) : String :=
     s!"{hexOfBytes out}:{ferrName e}:{if e = some .eof then toString inOff else "-"}:{s.outOff}"
   | none => "bad-line"
 
+/-- the earlier streams of the reset scenarios, built by the same recipe as the harness
+    (`flCannedPrevs` in fam_fl.go): stored blocks only. -/
+def flStored (final : Bool) (d : List UInt8) : List UInt8 :=
+  let n := d.length
+  [if final then 1 else 0, UInt8.ofNat (n % 256), UInt8.ofNat (n / 256 % 256),
+   UInt8.ofNat ((65535 - n) % 256), UInt8.ofNat ((65535 - n) / 256 % 256)] ++ d
+
+def flCannedPrevs : List (List UInt8) :=
+  let blk (b : Nat) : List UInt8 := (List.range 20000).map (fun i => UInt8.ofNat ((7 * i + b) % 251))
+  [flStored false (blk 0) ++ flStored false (blk 1) ++ flStored true (blk 2),
+   flStored true "hello, reset".toUTF8.toList,
+   flStored false "abcdefgh".toUTF8.toList ++ [0x07]]
+
+/-- `k` Read calls with buffer lengths taken cyclically from `psched` (stops at the first error). -/
+def flReadsK : Nat → FState → List Nat → Nat → FState
+  | 0, s, _, _ => s
+  | k+1, s, psched, i =>
+    let n := psched.getD (i % psched.length) 0
+    let (s', _, e) := read (s.total + 8) s n
+    match e with
+    | some _ => s'
+    | none => flReadsK k s' psched (i + 1)
+
+/-- kind `flrr`: a reader that has read `pk` times from canned stream `prev` is Reset onto `in`
+    and driven by `sched`; same result format as `flr`. -/
+def handleFlrr (kv : List (String × String)) : String :=
+  match bytesOfHex (lookupD kv "in" "-"), parseNat (lookupD kv "prev" "0"), parseNat (lookupD kv "pk" "0") with
+  | some bs, some pi, some pk =>
+    let sched := ((splitList (lookupD kv "sched" "4096") ',').filterMap parseNat)
+    let prev := Bits.ofBytes (flCannedPrevs.getD pi [])
+    let s0 := flReadsK pk (init prev) [0, 1, 5, 4096, 40000, 100, 3, 40000] 0
+    let bits := Bits.ofBytes bs
+    let (out, e, s) := run (300 * bits.length + sched.length + 16) (reset s0 bits) sched
+    let inOff := (s.total - s.bits.length + 7) / 8
+    s!"{hexOfBytes out}:{ferrName e}:{if e = some .eof then toString inOff else "-"}:{s.outOff}"
+  | _, _, _ => "bad-line"
+
 end Compress.Drv
